@@ -19,7 +19,30 @@ from ..corr import build_model
 
 HEAD = 'Binde "Duden/Ausgabe" ein.\nBinde "Duden/Listen" ein.\nBinde "Duden/Texte" ein.\nBinde "Duden/Sortierung" ein.\nBinde "Duden/Mathe" ein.\n\n'
 HEAD_B = 'Binde "Duden/Ausgabe" ein.\nBinde "Duden/Listen" ein.\nBinde "Duden/Sortierung" ein.\nBinde "Duden/Mathe" ein.\nBinde "Duden/Statistik" ein.\nBinde "Duden/Zahlen" ein.\nBinde "Duden/Zeichen" ein.\n\n'
-HEADS = {"A": HEAD, "B": HEAD_B}
+HEAD_C = 'Binde "Duden/Ausgabe" ein.\nBinde "Duden/TextIterator" ein.\n\n'
+HEADS = {"A": HEAD, "B": HEAD_B, "C": HEAD_C}
+ITER_CHARS = [0x61, 0x62, 0xE4, 0xDF, 0x20AC, 0x1F600, 0x20]
+
+
+def show_iter(ans):
+    out = ""
+    for view in ans.split(";"):
+        idx, ch, verbl, beh, rest, bisher = view.split(":")
+        out += "%s:%s:%s:%s:%s:%s;" % (idx, ch, verbl, beh, show_text(rest)[:-1], show_text(bisher)[:-1])
+    return out + "|0\n"
+
+
+def iter_cases(rng, add):
+    """Duden/TextIterator: every query at every position of a walk over a text with letters of 1-4 bytes"""
+    n = 1 + rng.below(6)
+    t = [ITER_CHARS[rng.below(len(ITER_CHARS))] for _ in range(n)]
+    q = [("den momentanen Index von it", False), ("(den momentanen Buchstaben von it) als Zahl", True), ("die Anzahl der verbleibenden Buchstaben von it", False),
+         ("die Anzahl der bereits behandelten Buchstaben von it", False), ("den Rest von it", False), ("den bisherigen Text von it", False)]
+    body = "".join('\tSchreibe (%s).\n\tSchreibe "%s".\n' % (e, ";" if k == len(q) - 1 else ":") for k, (e, _) in enumerate(q))
+    src = ("Der Text t ist %s.\nDer TextIterator it ist ein TextIterator über t.\nSolange it nicht zuende ist, mache:\n" % lit_text(t) + body +
+           '\tSetzte it auf den nächsten Buchstaben.\nSchreibe "|".\nSchreibe (die Anzahl der verbleibenden Buchstaben von it) auf eine Zeile.\n')
+    add("textiter", "duden textiter %s" % enc_ints(t), src, show_iter, head="C")
+
 CHARS = [0x61, 0x62, 0x20, 0x2C, 0xE4, 0x20AC, 0x1F600, 0x41, 0x5A, 0x7A]
 
 
@@ -195,12 +218,13 @@ def generic_list_cases(rng, add, kind, only_new=False):
     add("enthaelt-value" + tag, "duden enthaelt %s %d" % (el, ee), decl + p_bool("(%s) %s enthält" % (L, E)), show_bool)
     add("leer-value" + tag, "duden leer %s" % el, decl + p_bool("(%s) leer ist" % L), show_bool)
     add("gespiegelt-value" + tag, "duden gespiegelt %s" % el, "Die %s r ist (%s) gespiegelt.\n" % (k.listtype, L) + P("r"), S)
-    if l:
-        i = 1 + rng.below(len(l))
+    # there are |l|+1 insert positions: the one behind the last element appends (position 1 of the empty list)
+    for i in sorted({1 + rng.below(len(l) + 1), len(l) + 1}):
         add("einfuegenBereich" + tag, "duden einfuegenBereich %s %d %s" % (el, i, eo),
             decl + "Setze die Elemente in o an die Stelle %d von l.\n" % i + P("l") + P("o"), S, same_o)
         add("einfuegenBereich-selbst" + tag, "duden einfuegenBereich %s %d %s" % (el, i, el),
             decl + "Setze die Elemente in l an die Stelle %d von l.\n" % i + P("l"), S)
+    if l:
         n = 1 + rng.below(len(l))
         add("ersteN-value" + tag, "duden ersteN %s %d" % (el, n), "Die %s r ist die ersten %d Elemente von (%s).\n" % (k.listtype, n, L) + P("r"), S)
         add("letzteN-value" + tag, "duden letzteN %s %d" % (el, n), "Die %s r ist die letzten %d Elemente von (%s).\n" % (k.listtype, n, L) + P("r"), S)
@@ -217,9 +241,10 @@ def generic_list_cases(rng, add, kind, only_new=False):
         lambda x: show_bool(x) + show_bool("0" if x == "1" else "1"))
     add("leer" + tag, "duden leer %s" % el, decl + p_bool("l leer ist") + p_bool("l nicht leer ist"), lambda x: show_bool(x) + show_bool("0" if x == "1" else "1"))
     add("gespiegelt" + tag, "duden gespiegelt %s" % el, decl + "Die %s r ist l gespiegelt.\n" % k.listtype + P("r") + P("l"), S, same_l)
+    for i in sorted({1 + rng.below(len(l) + 1), len(l) + 1}):
+        add("einfuegen" + tag, "duden einfuegen %s %d %d" % (el, i, ee), decl + "Setze %s an die Stelle %d von l.\n" % (E, i) + P("l"), S)
     if l:
         i = 1 + rng.below(len(l))
-        add("einfuegen" + tag, "duden einfuegen %s %d %d" % (el, i, ee), decl + "Setze %s an die Stelle %d von l.\n" % (E, i) + P("l"), S)
         add("loesche" + tag, "duden loesche %s %d" % (el, i), decl + "Lösche das Element an der Stelle %d aus l.\n" % i + P("l"), S)
         a = 1 + rng.below(len(l))
         b = a + rng.below(len(l) - a + 1)
@@ -619,6 +644,7 @@ def cases_more(rng, it, add):
     generic_list_cases(rng, add, KINDS[["T", "B", "K", "W"][it % 4]])
     text_cases(rng, add)
     number_cases(rng, add)
+    iter_cases(rng, add)
 
 
 def cases(rng, per_op):
@@ -639,9 +665,10 @@ def cases(rng, per_op):
         add("anfuegenListe", "duden anfuegenListe %s %s" % (enc_ints(l), enc_ints(o)), decl + "Füge o an l an.\n" + p_list("l") + p_list("o"), show_list, show_list(enc_ints(o)))
         add("voranstellen", "duden voranstellen %s %d" % (enc_ints(l), e), decl + "Stelle %s vor l.\n" % lit_int(e) + p_list("l"), show_list)
         add("fuelle", "duden fuelle %s %d" % (enc_ints(l), e), decl + "Fülle l mit %s.\n" % lit_int(e) + p_list("l"), show_list)
+        for i in sorted({1 + rng.below(len(l) + 1), len(l) + 1}):
+            add("einfuegen", "duden einfuegen %s %d %d" % (enc_ints(l), i, e), decl + "Setze %s an die Stelle %d von l.\n" % (lit_int(e), i) + p_list("l"), show_list)
         if l:
             i = 1 + rng.below(len(l))
-            add("einfuegen", "duden einfuegen %s %d %d" % (enc_ints(l), i, e), decl + "Setze %s an die Stelle %d von l.\n" % (lit_int(e), i) + p_list("l"), show_list)
             add("loesche", "duden loesche %s %d" % (enc_ints(l), i), decl + "Lösche das Element an der Stelle %d aus l.\n" % i + p_list("l"), show_list)
             a = 1 + rng.below(len(l))
             b = a + rng.below(len(l) - a + 1)
